@@ -296,6 +296,45 @@ def small_configurations():
                 yield {"config": dict(reversed(list(d.items())))}
         chk, skip, fails = conform("C19/_internal_utils._convert_config_to_connection_obj[key:%s]" % key, inputs())
         out.append(("key-" + key, not fails and chk > 0, {"checked": chk, "failing": fails}))
+    # the public entry point: Diameter(config=...) goes through make_config / Config before the converter --
+    # the description it ends up with carries exactly the configured values (all keys given), and a configuration
+    # the converter rejects is rejected here too
+    import bromelia.setup as SU
+    from bromelia.exceptions import InvalidConfigKey, InvalidConfigValue
+    bad, n = [], 0
+    for mode, tt, wd in (("CLIENT", "TCP", 30), ("SERVER", "TCP", 1), ("CLIENT", "SCTP", 3600), ("SERVER", "SCTP", 60)):
+        n += 1
+        cfg = dict(base, MODE=mode, TRANSPORT_TYPE=tt, WATCHDOG_TIMEOUT=wd)
+        try:
+            c = SU.Diameter(config=dict(cfg))._connection
+            got = (c.mode, c.transport_type, c.application_ids, c.local_node.host_name, c.local_node.realm,
+                   c.local_node.ip_address, c.local_node.port, c.peer_node.host_name, c.peer_node.realm,
+                   c.peer_node.ip_address, c.peer_node.port, c.watchdog_timeout)
+            want = (mode, tt, cfg["APPLICATIONS"], "a.example", "example", "10.0.0.1", 3868, "b.example", "example",
+                    "10.0.0.2", 3869, wd)
+            if got != want:
+                bad.append({"config": {k: repr(v) for k, v in cfg.items()}, "got": repr(got)})
+        except BaseException as e:  # noqa
+            bad.append({"config": "valid %s/%s" % (mode, tt), "raised": "%s: %s" % (type(e).__name__, e)})
+    for key, val in (("MODE", "PEER"), ("TRANSPORT_TYPE", "UDP"), ("LOCAL_NODE_IP_ADDRESS", "256.1.1.1"),
+                     ("WATCHDOG_TIMEOUT", "60"), ("WATCHDOG_TIMEOUT", 7.9)):
+        n += 1
+        try:
+            SU.Diameter(config=dict(base, **{key: val}))
+            bad.append({"config": "%s=%r" % (key, val), "got": "accepted"})
+        except (InvalidConfigKey, InvalidConfigValue):
+            pass
+        except BaseException as e:  # noqa
+            bad.append({"config": "%s=%r" % (key, val), "raised": type(e).__name__})
+    n += 1
+    try:
+        SU.Diameter(config=dict(base, EXTRA_KEY=1))
+        bad.append({"config": "unknown key EXTRA_KEY", "got": "accepted"})
+    except (InvalidConfigKey, InvalidConfigValue):
+        pass
+    except BaseException as e:  # noqa
+        bad.append({"config": "unknown key EXTRA_KEY", "raised": type(e).__name__})
+    out.append(("diameter-entry-point-reflects-or-rejects", not bad, {"checked": n, "failing": bad[:4]}))
     return out
 
 
